@@ -987,6 +987,7 @@ func (s *Sim) checkFilter(p *corev1.Pod, err error) {
 	key := s.podKey(wl, p.Name)
 	held := heldBy(dump, key)
 	clean := s.faultMode == world.None
+	r.heldAfterFilter = append([]string(nil), held...)
 	// C08: a filter that offers nothing must not leave new IPs behind for a multi-range pod
 	if wl.Ranges != "" && !r.FilterOK && !equalStr(held, r.heldAtFilter) {
 		s.alarm("C08", "filter-empty-left-ips", fmt.Sprintf("pod %s requested ranges %s; filter offered no node but key holds %v (before: %v)", p.Name, wl.Ranges, held, r.heldAtFilter))
@@ -1121,6 +1122,39 @@ func (s *Sim) checkBind(p *corev1.Pod, node string, err error, pre map[string]wo
 				s.alarm("C06", "ipinfo-differs-from-pool-config", fmt.Sprintf("pod %s got %s/%d gw %s vlan %d; pool config says /%d gw %s vlan %d", p.Name,
 					inf.IP, inf.Bits, inf.Gateway, inf.Vlan, pool.Subnet.Bits, model.IPStr(pool.Gateway), pool.Vlan))
 			}
+		}
+		// C02 (deployment / pool): a replacement pod is bound with an IP its app holds in reserve, not a fresh one.
+		// Filter normally hands the reserved IP to the pod; here the pod holds nothing at bind time although a reserve
+		// routable from the chosen node exists
+		if wl.Kind == KDp && wl.effPolicy() != 0 && len(lists) == 0 && len(heldPre) == 0 && clean && len(b.IPs) == 1 {
+			var reserve []string
+			for ip, e := range pre {
+				if e.Key == s.prefixKey(wl) && !s.reloadDropped[ip] && s.Topo.Routable(ip, nd) {
+					reserve = append(reserve, ip)
+				}
+			}
+			sort.Strings(reserve)
+			if len(reserve) > 0 && !contains(reserve, b.IPs[0]) {
+				clause := "deployment-pod-bound-with-fresh-ip-while-reserve-existed"
+				byAdmin := false
+				for _, ip := range r.heldAfterFilter {
+					if s.everReleased200[ip] || s.reloadDropped[ip] {
+						byAdmin = true
+					}
+				}
+				if byAdmin {
+					// the administrator released / de-configured the IP filter had handed over: outside C02's quantifier
+					s.Counts["c02_dp_bind_fresh_ip_after_administrator_took_the_filter_allocation"]++
+				} else if len(r.heldAfterFilter) == 0 {
+					// the reserve appeared after the pod's filter (another pod of the app vanished meanwhile): the
+					// property puts the hand-over into scheduling (filter), bind does not look at the reserve - counted only
+					s.Counts["c02_dp_bind_fresh_ip_reserve_appeared_after_filter"]++
+				} else {
+					s.alarm("C02", clause, fmt.Sprintf("pod %s of %s held nothing at bind time and was bound with fresh IP %s while %v were held in reserve under %q (after its last filter it held %v)",
+						p.Name, wl.Name, b.IPs[0], reserve, s.prefixKey(wl), r.heldAfterFilter))
+				}
+			}
+			s.Counts["c02_dp_binds_without_held_ip"]++
 		}
 		// C02: stickiness
 		if wl.effPolicy() != 0 && len(heldPre) > 0 {
